@@ -4,7 +4,7 @@
 // <dir>/allok exists). A fifth
 // argument makes it leave <dir>/<name>.<arg> behind as well.
 //
-// usage: stepper <dir> <name> <fail-first-k> [marker]
+// usage: stepper <dir> <name> <fail-first-k> [marker...]
 package main
 
 import (
@@ -20,8 +20,10 @@ func main() {
 	}
 	dir, name := os.Args[1], os.Args[2]
 	k, _ := strconv.Atoi(os.Args[3])
-	if len(os.Args) > 4 {
-		os.WriteFile(filepath.Join(dir, name+"."+os.Args[4]), nil, 0o644)
+	// every further argument leaves <dir>/<name>.<arg> behind (arguments with
+	// blanks included: what the process received, verbatim)
+	for _, a := range os.Args[4:] {
+		os.WriteFile(filepath.Join(dir, name+"."+a), nil, 0o644)
 	}
 	tmp := filepath.Join(dir, name+".env.tmp"+strconv.Itoa(os.Getpid()))
 	if err := os.WriteFile(tmp, []byte(strings.Join(os.Environ(), "\x00")+"\x00"), 0o644); err != nil {
